@@ -162,7 +162,13 @@ func (fr *Frame) eval(e *Expr, env *Env, st *State, old *State) *Val {
 				return v
 			}
 		}
-		if cands := fr.nameCands[e.name]; len(cands) > 1 && env.at != nil {
+		cands := fr.nameCands[e.name]
+		if len(cands) < 2 {
+			if rc := fr.renamedCands(e.name); len(rc) > 1 {
+				cands = rc
+			}
+		}
+		if len(cands) > 1 && env.at != nil {
 			// several definitions: the innermost one that dominates the place of evaluation
 			var best ssa.Value
 			for _, c := range cands {
@@ -185,6 +191,20 @@ func (fr *Frame) eval(e *Expr, env *Env, st *State, old *State) *Val {
 				a := u.addrOfPtr(pv)
 				el := pv.Ty.Underlying().(*types.Pointer).Elem()
 				return term(u.loadAddr(st, a), el)
+			}
+		}
+		// a local that was renamed since the claims were recorded: found through its structural locator
+		if rv, kind := fr.renamedValue(e.name); rv != nil {
+			if v, ok := fr.vals[rv]; ok && v.K == vTerm {
+				u.note("local " + e.name + " of " + fnKey(fr.fn) + " no longer exists under that name; resolved structurally to " + rv.Name())
+				switch kind {
+				case "val":
+					return v
+				case "addr", "cell":
+					a := u.addrOfPtr(v)
+					el := v.Ty.Underlying().(*types.Pointer).Elem()
+					return fr.loadedOld(term(u.loadAddr(st, a), el), st)
+				}
 			}
 		}
 		if k, ok := kindNames[strings.TrimPrefix(e.name, "Kind")]; ok && strings.HasPrefix(e.name, "Kind") {
@@ -1010,6 +1030,23 @@ func (fr *Frame) loopEnv(h *ssa.BasicBlock, pv func(*ssa.Phi) *Val) *Env {
 			env.vars[name] = v
 		}
 		env.vars["$"+p.Name()] = v
+	}
+	// names recorded for these phis when the claims were written (survives a rename of the loop variable)
+	if base := fr.u.eng.baseLocals[fnKey(fr.fn)]; base != nil {
+		for old := range base {
+			if _, have := env.vars[old]; have {
+				continue
+			}
+			if rv, kind := fr.renamedValue(old); rv != nil && kind == "val" {
+				if p, ok := rv.(*ssa.Phi); ok && p.Block() == h {
+					if v := pv(p); v != nil {
+						if _, clash := fr.nameVals[old]; !clash {
+							env.vars[old] = v
+						}
+					}
+				}
+			}
+		}
 	}
 	// visited set of the iterator advanced in this loop
 	body := fr.loopBody[h]
